@@ -287,6 +287,15 @@ impl Lex {
                             10
                         }
                     );
+                    // a sign is only part of a literal in front of it, not after a 0x / 0b marker
+                    let sign_after_marker = (c != '-' && c != '+')
+                        && (self.tmp.starts_with('-') || self.tmp.starts_with('+'));
+                    if sign_after_marker {
+                        return Err(Xerr::ParseError {
+                            msg: PARSE_INT_ERRMSG,
+                            substr,
+                        });
+                    }
                     let i =
                         Xint::from_str_radix(&self.tmp, radix).map_err(|_| Xerr::ParseError {
                             msg: PARSE_INT_ERRMSG,
